@@ -14,6 +14,8 @@ structure Th where
   /-- environment session this call's save is waiting for (0 = none) and sessions still to open -/
   wsid : Nat
   wleft : Nat
+  /-- the file writer of this call has collected the write list -/
+  wstarted : Bool := false
 
 structure DSt where
   resets : Bool
@@ -28,6 +30,16 @@ structure DSt where
   /-- fact: the body re-checks its object under the guard and starts over on a fresh one -/
   recheck : Bool
   fresh : Bool          -- a re-checking call replaced the deleted object by a new one
+  /-- immediate-write mode: calls whose file writer is pending, in the order of their in-save release; the writers
+      run one after the other (the harness starts a writer only when no earlier one is pending) -/
+  wq : List Nat := []
+  /-- the record is in the swamp's list of treasures waiting for the file writer -/
+  dirtyW : Bool := false
+  /-- who stamped the record's UpdatedBy last (every call does, between taking the guard and reading the value);
+      what each finished call found there when it built its response; fact: the response metadata is read after Save -/
+  lastBy : String := ""
+  byOf : List (Nat × String) := []
+  respAfterSave : Bool := false
   /-- mode setx: fact (gateway Set repeats its existence tests under the record guard), the operation table
       (call id, kind, argument), parked calls and the next id for synchronous calls -/
   setUnderGuard : Bool := true
@@ -57,23 +69,33 @@ def settle (fuel : Nat) (d : DSt) : DSt :=
   match fuel with
   | 0 => d
   | fuel + 1 =>
-    -- a call whose save still has sessions to open and none open: open one
-    match d.ths.find? (fun u => u.wleft > 0 && u.wsid == 0) with
-    | some u =>
-      match stepL d .envStart with
-      | some s' =>
-        let ths := d.ths.map (fun x => if x.tid == u.tid then { x with wsid := s'.g.nextSid } else x)
-        settle fuel { d with s := s', ths := ths }
-      | none => d
-    | none =>
-      match d.ths.find? (fun u => u.wsid != 0 && headSid d.s.g == some u.wsid) with
+    match d.wq with
+    | [] => d
+    | w :: rest =>
+      match d.ths.find? (·.tid == w) with
+      | none => settle fuel { d with wq := rest }
       | some u =>
-        match stepL d (.envRelease u.wsid) with
-        | some s' =>
-          let ths := d.ths.map (fun x => if x.tid == u.tid then { x with wsid := 0, wleft := x.wleft - 1 } else x)
-          settle fuel { d with s := s', ths := ths }
-        | none => d
-      | none => d
+        if !u.wstarted then
+          -- fileWriterHandler collects (and empties) the list of waiting treasures; nothing waiting: nothing to do
+          let n := if d.dirtyW then 2 else 0
+          let ths := d.ths.map (fun x => if x.tid == u.tid then { x with wstarted := true, wleft := n } else x)
+          settle fuel { d with ths := ths, dirtyW := false }
+        else
+        if u.wleft == 0 then settle fuel { d with wq := rest } else
+        if u.wsid == 0 then
+          -- the writer opens its next guard session
+          match stepL d .envStart with
+          | some s' =>
+            let ths := d.ths.map (fun x => if x.tid == u.tid then { x with wsid := s'.g.nextSid } else x)
+            settle fuel { d with s := s', ths := ths }
+          | none => d
+        else if headSid d.s.g == some u.wsid then
+          match stepL d (.envRelease u.wsid) with
+          | some s' =>
+            let ths := d.ths.map (fun x => if x.tid == u.tid then { x with wsid := 0, wleft := x.wleft - 1 } else x)
+            settle fuel { d with s := s', ths := ths }
+          | none => d
+        else d
 
 def showState (d : DSt) (u : Th) : String :=
   let ts := d.s.th u.tid
@@ -84,7 +106,7 @@ def showState (d : DSt) (u : Th) : String :=
   | 3 => "3"
   | 4 => if u.wleft > 0 then "3w" else "4"
   | 5 => match d.s.log.find? (·.tid == u.tid) with
-    | some e => s!"5 r={e.resp}"
+    | some e => s!"5 r={e.resp} by={((d.byOf.find? (·.1 == u.tid)).map (·.2)).getD u.name}"
     | none => "5 r=?"
   | _ => "?"
 
@@ -131,15 +153,22 @@ def stepThread (d : DSt) (name : String) (fetch : Bool) : DSt × String :=
         -- immediate-write mode: the save just released the guard; the chronicler now takes it twice,
         -- unless another call's file write is still in progress (then this one is skipped)
         let imm := (cfgOf d).releaseInSave && ts.pc == 3
-        let busy := d.ths.any (fun x => x.wleft > 0)
         let ths := d.ths.map (fun x => if x.tid == t then
-          { x with fetchedOnly := false, wleft := if imm && !busy then 2 else x.wleft } else x)
+          { x with fetchedOnly := false, wleft := if imm then 2 else x.wleft } else x)
         let res := d.resurrected || (d.deleted && ts.pc == 3)
-        let d1 := settle 16 { d with s := s', ths := ths, resurrected := res }
+        -- metadata: stamped at the step that follows the grant; read back when the response is built — which is
+        -- behind Save, i.e. in immediate-write mode after the guard was released
+        let lastBy := if ts.pc == 1 then name else d.lastBy
+        let late := d.respAfterSave && (cfgOf d).releaseInSave
+        let byOf := if ts.pc == 4 then d.byOf ++ [(t, if late then lastBy else name)] else d.byOf
+        let d1 := settle 32 { d with s := s', ths := ths, resurrected := res, wq := if imm then d.wq ++ [t] else d.wq,
+                                     dirtyW := d.dirtyW || imm, lastBy := lastBy, byOf := byOf }
         let u1 := (d1.ths.find? (·.tid == t)).getD u
         let stale := d1.deleted && !d1.fresh && !d1.cleared && (d1.s.th t).pc == 5
+        let lateBy := ts.pc == 4 && late && lastBy != name
         (d1, render d1 name (showState d1 u1) ++ lostFlag d1 ++
-          (if stale then "\t#F:C09-delete-increment-stale-object" else ""))
+          (if stale then "\t#F:C09-delete-increment-stale-object" else "") ++
+          (if lateBy then "\t#F:C09-response-read-after-save" else ""))
 
 /-! ### mode setx: conditional Sets as calls of `Hv.Lin` (value 0 = the key is absent) -/
 
@@ -236,7 +265,7 @@ def sstep (d : DSt) (ws : List String) : DSt × String :=
 def step (d : DSt) (line : String) : DSt × String :=
   match words line with
   | ["case", _, mode, kind] =>
-    ({ d with mode := mode, kind := kind, s := Hv.Lin.init (if mode == "setx" then 0 else 5), ths := [], deleted := false,
+    ({ d with mode := mode, kind := kind, wq := [], dirtyW := false, lastBy := "", byOf := [], s := Hv.Lin.init (if mode == "setx" then 0 else 5), ths := [], deleted := false,
               resurrected := false, cleared := false, fresh := false, sops := [], sparked := [], snext := 10,
               sp := Hv.Lin.init 0, searly := [] }, line)
   | ws =>
@@ -286,7 +315,8 @@ def run (args : List String) : IO UInt32 := do
                   mode := "", kind := "", s := Hv.Lin.init 5, ths := [], deleted := false, resurrected := false,
                   cleared := false, recheck := arg kv "rechecksObjectUnderGuard" == "yes", fresh := false,
                   setUnderGuard := arg kv "setTestsExistenceUnderGuard" != "no",
-                  patchGuarded := arg kv "bodyShape" != "readBeforeAcquire" }
+                  patchGuarded := arg kv "bodyShape" != "readBeforeAcquire",
+                  respAfterSave := arg kv "bodyShape" == "respAfterSave" }
   return 0
 
 end Driver.C09
